@@ -6,7 +6,9 @@ _NOTE = ("Trusted: Lean kernel; Spec/* transcription of the FIRST documents; F64
          "its tie to /repo is the correspondence run of this check (exhaustive where the domain is finite).")
 _NOTE_F = (_NOTE + " Second tie for the score properties: go/formulas translates the source text of the score and severity functions "
            "into Lean on every run and Props/Src.lean proves them equal to the model for every object (per-metric Value/IsChanged/IsEmpty/"
-           "GetError are primitives of that translation); evidence field formula_translation says whether that held in the run.")
+           "GetError are primitives of that translation, and go/tables translates those per-metric methods and their map literals too: "
+           "Props/SrcTab.lean proves them equal to the model's weight functions for every integer); evidence fields formula_translation and "
+           "table_translation say whether that held in the run.")
 
 TEXT = {
     "C01": {
@@ -56,47 +58,56 @@ TEXT["C20"] = {
     "level": "Theorems on the model's tables: Get/String inverse on every code of every metric (v3_tables_ok, v2_tables_ok), every other string "
              "parses to 0 and every other integer prints as empty (get_other / str_other, for ALL strings and integers), validity separates, "
              "code sets = specification's, weights = specification's exact decimals correctly rounded (incl. scope-dependent PR and Modified "
-             "fall-backs), version labels. Correspondence: exhaustive dump of all 36 metric types and both version types.",
-    "ref": "5 (C20)", "note": _NOTE,
-    "technique": "Lean 4 proof (decide on tables + generic find? lemmas) + exhaustive table-dump correspondence"}
-_PNOTE = ("Trusted: Lean kernel; Spec/Grammar*.lean as the formal reading of the property; the harness/driver/check.py. The theorem holds for "
-          "every byte string on the hand-written model; its transfer to /repo is a seeded, systematic but finite correspondence.")
+             "fall-backs), version labels. Translation tie: go/tables turns the enumerations, every map literal and the body of every GetXxx / "
+             "String / Value / IsUnknown / IsValid / IsDefined / IsChanged into Lean on every run; Props/SrcTab.lean proves each equal to the "
+             "model's function for ALL strings and ALL integers, and that the codes of every table searched by a range loop are pairwise "
+             "different (so Go's unspecified iteration order cannot matter). Correspondence: exhaustive dump of all 36 metric types and both "
+             "version types.",
+    "ref": "5 (C20), 2", "note": _NOTE + " go/tables (its reading of Go statements and literals) is trusted; the correspondence is the independent check of it.",
+    "technique": "Lean 4 proof (decide on tables + generic find? lemmas) + exhaustive table-dump correspondence + source-to-Lean translation of the enumerations, map literals and per-metric functions (go/tables) proved equal to the model for all strings and integers"}
+_PNOTE = ("Trusted: Lean kernel; Spec/Grammar*.lean as the formal reading of the property; the harness/driver/check.py; the translators go/decoders "
+          "and go/tables (go/parser; their reading of Go statements, of errs.Wrap/errs.Is as the wrapped sentinel, and the names-map abstraction "
+          "under the proved markSites obligation). The theorem holds for every byte string on the hand-written model; its transfer to /repo is "
+          "(a) the translation tie: on every run the source text of the constructors, Decode, decodeOne, GetError, Encode, String, IsEmpty, "
+          "GetVersion and of the per-metric parsers/printers is translated into Lean and Props/SrcDec.lean + Props/SrcTab.lean prove it equal to "
+          "the model for every object and every byte string (evidence field decoder_translation: proved / not-understood / lost), and "
+          "(b) a seeded, systematic but finite correspondence.")
 TEXT["C07"] = {
     "level": "Theorem accept3_iff: for every level and EVERY list of bytes the model's decoder accepts iff the string is in the grammar wf3 "
              "(proved by induction over the token list with the core splitOn lemmas and a fold invariant; no bound on length); delegation: the "
              "model's flattened decodeOne equals the literal three-level delegation of the Go types. Correspondence: systematic single-edit "
              "neighbourhoods of seeded vectors (incl. values built from a metric's own codes), random bytes, multi-byte input around length "
              "thresholds; accept/reject compared with model and grammar oracle.",
-    "ref": "5 (C07)", "note": _PNOTE, "technique": "Lean 4 proof by induction (all byte strings) + edit-neighbourhood correspondence"}
+    "ref": "5 (C07)", "note": _PNOTE, "technique": "Lean 4 proof by induction (all byte strings) + edit-neighbourhood correspondence + source-to-Lean translation of the decoders (go/decoders, go/tables) proved equal to the model for all objects and strings"}
 TEXT["C08"] = {
     "level": "Theorem accept2_iff: for every level and every list of bytes the v2 model decoder accepts iff the string is canonical "
              "(canon2); encode2_identity; delegation (literal three-level decodeOne = flattened). Correspondence as C07 with v2 edits (group "
              "reorder, partial groups incl. all-Not-Defined ones, prefixes).",
-    "ref": "5 (C08)", "note": _PNOTE, "technique": "Lean 4 proof by induction (all byte strings) + edit-neighbourhood correspondence"}
+    "ref": "5 (C08)", "note": _PNOTE, "technique": "Lean 4 proof by induction (all byte strings) + edit-neighbourhood correspondence + source-to-Lean translation of the decoders and encoders (go/decoders, go/tables) proved equal to the model"}
 TEXT["C09"] = {
     "level": "Theorems decode3_fields / decode2_fields (every field = value of the written code; unwritten v3 optional = Not Defined; v2 group "
              "emptiness), decode3_perm (any permutation of the tokens gives the identical object), decode3_X_omit, queries depend only on "
              "version and fields. Correspondence: field dumps of seeded accepted vectors against the written tokens; all spellings of one token set "
              "(orders, X written or omitted; exhaustively omitted-vs-X over every base vector at both higher decoders) compared among the "
              "implementation's own results (fields, scores, severities).",
-    "ref": "5 (C09)", "note": _PNOTE, "technique": "Lean 4 proof (fold invariant corollaries) + field-dump correspondence"}
+    "ref": "5 (C09)", "note": _PNOTE, "technique": "Lean 4 proof (fold invariant corollaries) + field-dump correspondence + source-to-Lean translation of the decoders (go/decoders, go/tables) proved equal to the model"}
 TEXT["C10"] = {
     "level": "Theorems encode3_canonical (= Spec canon3), decode3_encode_decode, encode2_identity, decode2_encode_decode for every accepted "
              "string. Correspondence: Encode/String/re-decode on every accepted string of the streams.",
-    "ref": "5 (C10)", "note": _PNOTE, "technique": "Lean 4 proof (splitOn/intercalate round trip) + encode/re-decode correspondence"}
+    "ref": "5 (C10)", "note": _PNOTE, "technique": "Lean 4 proof (splitOn/intercalate round trip) + encode/re-decode correspondence + source-to-Lean translation of the encoders and decoders (go/decoders, go/tables) proved equal to the model"}
 TEXT["C11"] = {
     "level": "Theorems err3_sound / err2_sound: for every level and every byte string, whichever sentinel the model's decoder returns, the "
              "corresponding defect predicate (Spec defect3/defect2: malformed prefix or token, other version, repeated metric, unknown code, "
              "name outside the level, missing base metric, incomplete group, misordered) holds of the string; single_defect corollaries. "
              "Correspondence: set of sentinels matching under errors.Is on every rejected string = {model's error} and in the oracle's defect set.",
-    "ref": "5 (C11)", "note": _PNOTE, "technique": "Lean 4 proof by induction over the token loop (all byte strings) + sentinel-set correspondence"}
+    "ref": "5 (C11)", "note": _PNOTE, "technique": "Lean 4 proof by induction over the token loop (all byte strings) + sentinel-set correspondence + source-to-Lean translation of the decoders (go/decoders, go/tables) proved equal to the model"}
 TEXT["C12"] = {
     "level": "Theorems: Split never returns an empty slice (the only index the decoders use unguarded); decode is total with outcome = "
              "grammar or a real defect (decode3_total/decode2_total); on nil, fresh, failed-decode or field-reset objects an invalid object "
              "scores +0 and Encode/GetError report an error (v3/v2_invalid_scores_zero, *_unknown_is_invalid). The Go runtime is not "
              "modelled: the correspondence runs every operation under recover, incl. nil receivers and inputs of millions of separators.",
     "ref": "5 (C12)", "note": _PNOTE + " Panics are runtime behaviour: partial in that the model exhibits them only as unreachable match arms.",
-    "technique": "Lean 4 proof (totality, invalid => zero) + recover-guarded differential runs"}
+    "technique": "Lean 4 proof (totality, invalid => zero) + recover-guarded differential runs + source-to-Lean translation of the decoders/encoders incl. nil receivers, panics as none (go/decoders): no index panic for all objects and strings"}
 TEXT["C14"] = {
     "level": "Theorems view3 / view2: for every accepted string and every lower level, the view's encoding is the canonical lower-level vector, "
              "a fresh lower-level decoder accepts it, and score, severity/validity and encoding coincide; view3_tokens / view2_tokens: the same for "
